@@ -346,6 +346,18 @@ func genSam(r *RNG, disjoint bool, maxIns int) samCase {
 				sc.tags["three-records-short-insertion-in-overlap"] = true
 			}
 		}
+		if len(recs) == 0 && L >= 12 && r.Chance(1, 10) {
+			// a query in two pieces that reach both ends of the reference and leave a stretch in the middle uncovered; the
+			// primary line (first in the file) is the right-hand piece
+			a := r.Range(3, L/2-2)
+			b := r.Range(L/2+1, L-3)
+			recs = append(recs,
+				samRec{name: name, flag: 0, pos: b + 1, cigar: fmt.Sprintf("%dH%dM", b, L-b), seq: tmpl[b:]},
+				samRec{name: name, flag: 2048, pos: 1, cigar: fmt.Sprintf("%dM%dH", a, L-a), seq: tmpl[:a]})
+			sc.tags["multi-record"] = true
+			sc.tags["records-not-in-reference-order"] = true
+			sc.tags["both-ends-covered-hole-in-the-middle"] = true
+		}
 		if len(recs) > 0 {
 		} else if L >= 10 && (r.Chance(1, 5) || (genSamOverlapOften && r.Bool())) {
 			// one alignment cut into overlapping, agreeing records (each insertion carried by exactly one of them)
@@ -411,6 +423,14 @@ func genSam(r *RNG, disjoint bool, maxIns int) samCase {
 			}
 			if len(recs) > 1 {
 				sc.tags["multi-record"] = true
+				if r.Chance(1, 3) {
+					// the lines of a query come in the aligner's order (primary first), not in reference order: the
+					// primary may be the right-hand piece
+					i := r.Range(1, len(recs)-1)
+					recs[0], recs[i] = recs[i], recs[0]
+					recs[0].flag, recs[i].flag = recs[0].flag&^2048, recs[i].flag|2048
+					sc.tags["records-not-in-reference-order"] = true
+				}
 			}
 		} else {
 			// overlapping records: agreeing (same template) or conflicting (independent templates)
